@@ -7,6 +7,11 @@ lean/PedalModel/TimeoutIR.lean (questions asked, observable operations in order,
 
   grader    pedal/sandbox/timeout.py  `timeout()`:  is_alive / claim_finish / terminate / TimeoutError
   student   pedal/sandbox/sandbox.py  `Sandbox._stop_mocking`:  claim check before stop-patches / pop / append_output
+            (question `timed`: "is this the execution the current thread was started for?" - asked only by a tree
+            that tells that execution from others finishing on the same thread; read from
+            `getattr(current_thread(), <mark>, None) is <the context parameter>`, measured by comparing `_stop_mocking`
+            reached through the real threaded execution path with `_stop_mocking` called directly on a thread with
+            a claim: equal runs = the tree does not ask)
   handler   pedal/sandbox/sandbox.py  `Sandbox._execute_with_timeout` from the moment `timeout(...)` raises
             TimeoutError:  stop-patches / pop stdout / append_output / capture / id bump
 
@@ -245,7 +250,8 @@ class Exec:
         if k == "thread":
             return Sym("threadattr", name)
         if k == "curthread":
-            return Sym("claimfn_bound") if name == self.claim_name else OPAQUE
+            # any other attribute of the current thread may be the mark "the execution this thread was started for"
+            return Sym("claimfn_bound") if name == self.claim_name else Sym("threadmark", name)
         if k == "mod":
             if base.data == "threading" and name in ("current_thread", "currentThread"):
                 return Sym("fn_curthread")
@@ -366,6 +372,12 @@ class Exec:
                 # two constants (flags held in locals compared with True / False)
                 def both(vs):
                     a, b = vs
+                    if {a.kind, b.kind} == {"threadmark", "ctx"}:
+                        # `getattr(current_thread(), <mark>, None) is context`: is the execution being finalized the one
+                        # this thread was started for?
+                        if isinstance(op, (ast.IsNot, ast.NotEq)):
+                            return self.ask("timed", kf, kt)
+                        return self.ask("timed", kt, kf)
                     if a.kind == "const" and b.kind == "const":
                         same = (a.data is b.data) if isinstance(op, (ast.Is, ast.IsNot)) else (a.data == b.data)
                         if isinstance(op, (ast.IsNot, ast.NotEq)):
@@ -462,6 +474,9 @@ class Exec:
                 if len(args) == 3 and args[2].kind == "const" and args[2].data is None:
                     return k(Sym("claimfn"))
                 return k(Sym("claimfn_bound"))
+            if (f.data == "getattr" and len(args) in (2, 3) and args[0].kind == "curthread" and args[1].kind == "const"
+                    and isinstance(args[1].data, str) and not star):
+                return k(Sym("threadmark", args[1].data))     # (its default, if any, is not the context object)
             if any(v.kind in ("curthread", "thread") for v in args[:1]):
                 return k(OPAQUE)
             if args and args[0].kind == "self" and len(args) >= 2 and args[1].kind == "const" and isinstance(args[1].data, str):
@@ -717,14 +732,20 @@ def unparse(node):
         return type(node).__name__
 
 
-def find_claim_name(smod):
-    """the name under which sandbox.py looks the claim method up on the current thread"""
+def find_claim_name(smod, tmod=None):
+    """the name under which sandbox.py looks the claim method up on the current thread (`getattr` / `hasattr` with a
+    constant name on `current_thread()` or on a local); when several attributes of the thread are looked up (the claim
+    and the mark of the execution the thread was started for) it is the one that is a method of InterruptableThread"""
     names = set()
     for n in ast.walk(smod.tree):
         if (isinstance(n, ast.Call) and isinstance(n.func, ast.Name) and n.func.id in ("getattr", "hasattr")
                 and len(n.args) >= 2 and isinstance(n.args[1], ast.Constant) and isinstance(n.args[1].value, str)
-                and "current_thread" in ast.dump(n.args[0])):
+                and ("current_thread" in ast.dump(n.args[0])
+                     or (isinstance(n.args[0], ast.Name) and "thread" in n.args[0].id.lower()))):
             names.add(n.args[1].value)
+    if len(names) > 1 and tmod is not None:
+        methods = set(tmod.classes.get("InterruptableThread", {}))
+        names = {x for x in names if x in methods} or names
     return names.pop() if len(names) == 1 else DEFAULT_CLAIM_NAME
 
 
@@ -745,7 +766,7 @@ def ast_trees(table):
     notes = {}
     modules = {"timeout": Module("timeout", os.path.join(REPO, "pedal", "sandbox", "timeout.py")),
                "sandbox": Module("sandbox", os.path.join(REPO, "pedal", "sandbox", "sandbox.py"))}
-    claim_name = find_claim_name(modules["sandbox"])
+    claim_name = find_claim_name(modules["sandbox"], modules["timeout"])
     out = {}
 
     def attempt(name, thunk):
@@ -765,7 +786,11 @@ def ast_trees(table):
         fn = modules["sandbox"].classes.get("Sandbox", {}).get("_stop_mocking")
         if fn is None:
             raise ValueError("Sandbox._stop_mocking not found")
-        return Exec(modules, table, claim_name).run("sandbox", fn, param_env(fn, Sym("self")))
+        env = param_env(fn, Sym("self"))
+        params = [p.arg for p in fn.args.posonlyargs + fn.args.args]
+        if len(params) >= 2:
+            env[params[1]] = Sym("ctx")          # the execution being finalized
+        return Exec(modules, table, claim_name).run("sandbox", fn, env)
 
     def handler():
         cls = modules["sandbox"].classes.get("Sandbox", {})
@@ -931,6 +956,34 @@ def make_probe_sandbox(log):
             if state["armed"] and name in ("_current_stdout", "_current_patches", "_context"):
                 log.append(("eff", ("opaque-text", "%s replaced" % name)))
             object.__setattr__(self, name, value)
+
+        def _stop_mocking(self, *a, **k):
+            """when asked to (`arm_at_stop`): the finalization reached through the REAL execution path - whatever that
+            path started is undone first, then the instruments are put in place and how it ends is recorded"""
+            if not state.get("arm_at_stop"):
+                return smod.Sandbox._stop_mocking(self, *a, **k)
+            state["arm_at_stop"] = False
+            for frame in reversed(list(self._current_patches)):
+                for a_patch in (frame if isinstance(frame, (tuple, list)) else ()):
+                    try:
+                        a_patch.stop()
+                    except Exception:
+                        pass
+            arm(self, state, log)
+            try:
+                smod.Sandbox._stop_mocking(self, *a, **k)
+                state["exit"] = "fall"
+            except TimeoutError:
+                state["exit"] = "raiseTimeout"
+                raise
+            except SystemExit:
+                state["exit"] = "raiseSystemExit"
+                raise
+            except BaseException:
+                state["exit"] = "raiseOther"
+                raise
+            finally:
+                state["armed"] = False
     sb = ProbeSandbox(report=Report())
     context = smod.SandboxContext(sb._next_context_id, "pass", "c14_probe.py", smod.SandboxContextKind.RUN, None, [], "",
                                   None, sb.report.submission)
@@ -946,7 +999,68 @@ def arm(sb, state, log, with_stdout=True):
     state["armed"] = True
 
 
-def probe_student(table, claim_name):
+def claim_thread_class(claim_name, claim, log):
+    def claim_method(self, claim=claim, log=log):
+        log.append(("ask", "claim", claim))
+        return claim
+    return type("C14ProbeThread", (threading.Thread,), {claim_name: claim_method})
+
+
+def probe_student_timed(table, claim_name):
+    """`_stop_mocking` of THE execution a thread with a claim was started for: the real threaded execution path
+    (`_execute_with_timeout`, or `_execute(threaded=True)`) of a pretend execution of `pass`, with `timeout` replaced
+    by a function that runs what it is given on a thread whose claim answers True / False - so whatever the tree
+    does to tell that execution from others finishing on the thread (nothing at all, or a mark set on the thread on
+    the way) happens by itself.  -> list of (events, exit), one per answer"""
+    import sys
+    import time
+    runs = []
+    for claim in (True, False):
+        log = []
+        smod, sb, context, state = make_probe_sandbox(log)
+        fired = []
+        cls = claim_thread_class(claim_name, claim, log)
+
+        def fake_timeout(duration, func, *args, **kwargs):
+            fired.append(1)
+            th = cls(target=lambda: classify_exit(lambda: func(*args, **kwargs)))
+            th.daemon = True
+            th.start()
+            th.join(20)
+            if th.is_alive():
+                raise RuntimeError("the execution did not end within 20 s")
+        before = {"stdout": sys.stdout, "sleep": time.sleep, "modules": dict(sys.modules)}
+        saved_timeout = smod.timeout
+        smod.timeout = fake_timeout
+        state["arm_at_stop"] = True
+        try:
+            if hasattr(sb, "_execute_with_timeout"):
+                sb._execute_with_timeout("pass", "c14_probe.py", smod.SandboxContextKind.RUN)
+            else:
+                sb._execute("pass", "c14_probe.py", smod.SandboxContextKind.RUN, True)
+        finally:
+            smod.timeout = saved_timeout
+            state["armed"] = False
+            state["arm_at_stop"] = False
+            # never leave the translator's own process patched (a lost claim leaves the execution unfinalized - that is
+            # the protocol - and the instruments have replaced the stacks that knew what was started)
+            sys.stdout = before["stdout"]
+            time.sleep = before["sleep"]
+            for k in list(sys.modules):
+                if k not in before["modules"]:
+                    del sys.modules[k]
+            for k, v in before["modules"].items():
+                if sys.modules.get(k) is not v:
+                    sys.modules[k] = v
+        if not fired:
+            raise RuntimeError("the threaded execution path never called timeout()")
+        if "exit" not in state:
+            raise RuntimeError("the threaded execution path never reached _stop_mocking")
+        runs.append((number_opaque(log, table, "_stop_mocking"), state["exit"]))
+    return runs
+
+
+def probe_student(table, claim_name, notes=None):
     runs = {}
     for plain in (True, False):
         runs[plain] = []
@@ -961,11 +1075,7 @@ def probe_student(table, claim_name):
             if plain:
                 th = threading.Thread(target=body)
             else:
-                def claim_method(self, claim=claim, log=log):
-                    log.append(("ask", "claim", claim))
-                    return claim
-                cls = type("C14ProbeThread", (threading.Thread,), {claim_name: claim_method})
-                th = cls(target=body)
+                th = claim_thread_class(claim_name, claim, log)(target=body)
             th.daemon = True
             th.start()
             th.join(20)
@@ -974,12 +1084,33 @@ def probe_student(table, claim_name):
                 raise RuntimeError("_stop_mocking did not return within 20 s")
             ex = "fall" if result["exit"] == "ret" else result["exit"]
             runs[plain].append((number_opaque(log, table, "_stop_mocking"), ex))
-    uniq = []
-    for r in runs[False]:
-        if r not in uniq:
-            uniq.append(r)
-    return ("ask", "plain", merge_traces(runs[True], table, "_stop_mocking (ordinary thread)"),
-            merge_traces(uniq, table, "_stop_mocking (thread with a claim)"))
+    # `runs[False]`: `_stop_mocking` called DIRECTLY on a thread with a claim = some execution that merely finishes
+    # there.  The execution the thread was started for is measured through the real execution path.  A tree that does
+    # not tell the two apart (every execution finishing on such a thread is raced for) gives the same runs twice: the
+    # tree is then the one without the `timed` question.
+    try:
+        timed = probe_student_timed(table, claim_name)
+    except Exception as e:
+        if notes is not None:
+            notes["student_timed_probe_error"] = "%s: %s" % (type(e).__name__, e)
+        timed = None
+
+    def uniq(rs):
+        out = []
+        for r in rs:
+            if r not in out:
+                out.append(r)
+        return out
+    ordinary = merge_traces(runs[True], table, "_stop_mocking (ordinary thread)")
+    direct = merge_traces(uniq(runs[False]), table, "_stop_mocking (thread with a claim)")
+    if timed is not None and timed == runs[False]:
+        return ("ask", "plain", ordinary, direct)
+    if timed is None:
+        timed_tree = ("opaque", table.idx(("probe-fail", "student-timed"),
+                                          "measurement of _stop_mocking through the threaded execution path failed"))
+    else:
+        timed_tree = merge_traces(uniq(timed), table, "_stop_mocking (the execution its thread was started for)")
+    return ("ask", "plain", ordinary, ("ask", "timed", timed_tree, direct))
 
 
 def number_opaque(log, table, what):
@@ -1039,7 +1170,7 @@ def probe_trees(table, claim_name):
         finally:
             __import__("sys").stdout = real_stdout
     attempt("grader", lambda: probe_grader(table, claim_name))
-    attempt("student", lambda: probe_student(table, claim_name))
+    attempt("student", lambda: probe_student(table, claim_name, notes))
     attempt("handler", lambda: probe_handler(table))
     return out, notes
 
